@@ -1,5 +1,5 @@
 //! `Shapes`: the shape alphabets of C18's totality check — per argument type a small list of
-//! values covering zero, -zero, subnormal, tiny (squares underflow), ordinary, huge (squares
+//! values covering zero, -zero, subnormal, tiny (squares underflow to zero or to a subnormal), ordinary, huge (squares
 //! overflow), +-inf lanes, NaN lanes and mixtures.
 use glam::*;
 
@@ -65,6 +65,9 @@ macro_rules! vec_shapes {
                     l([<$S>::NAN; 4]),
                     l([0.0, <$S>::INFINITY, <$S>::NAN, 1.0]),
                     l([t, h, -1.0, 0.0]),
+                    // an exactly opposite pair whose squared length is a non-zero subnormal
+                    l([<$S>::MIN_POSITIVE.sqrt() / 32.0, 0.0, 0.0, 0.0]),
+                    l([-(<$S>::MIN_POSITIVE.sqrt() / 32.0), 0.0, 0.0, 0.0]),
                 ]
             }
         }
